@@ -121,17 +121,8 @@ def own_and_adjacent(self, p, sock):
     return False
 
 
-# exit: the outside socket is opened only by data from the previous hop's IP; data leaves only through that circuit's socket
-contract(f"{TC}::TunnelCommunity.exit_data", "exit_data.previous-hop-opens-socket",
-         vars={"hc1": HOP(), "self": COMMUNITY(), "cid": INT, "sock": ADDRESS, "dest": ADDRESS, "data": BYTES},
-         call="self.exit_data(cid, sock, dest, data)", raises=[],
-         on_effect={"enable": ["cid in self.exit_sockets", "not old(cid in self.exit_sockets and self.exit_sockets[cid].enabled)",
-                               "sock[0] == self.exit_sockets[cid].hop.peer._address[0]"],
-                    "sendto": ["cid in self.exit_sockets", "args == (data, dest)",
-                               "self.exit_sockets[cid].enabled or len(calls('enable')) == 1"]},
-         ensures=["implies(not old(cid in self.exit_sockets), len(trace()) == 0)", "len(calls('sendto')) <= 1"],
-         covers=["len(calls('enable')) == 1", "len(calls('sendto')) == 1"],
-         note="unknown circuit: nothing; the socket is enabled only from the previous hop's IP address")
+# exit: the outside socket is opened only by data from the previous hop's IP (shared with C06)
+exit_data_contract()
 
 # return path bound to the socket's own circuit
 contract(f"{ES}::TunnelExitSocket.tunnel_data", "tunnel_data.bound-to-own-circuit",
